@@ -154,7 +154,9 @@ def main():
             corr_ok = False
             notes.append(f"harness build failed: {e}")
     finally:
-        fcntl.flock(lockf, fcntl.LOCK_UN)
+        # keep a SHARED lock while the model and the harness are being run, so that a concurrent check cannot
+        # rebuild the .vo files or the test binary underneath this one (it waits for the exclusive lock above)
+        fcntl.flock(lockf, fcntl.LOCK_SH)
 
     rng = random.Random(a.seed)
     work = vetlib.fresh_dir(os.path.join(BUILD, "run", f"{pid}-{a.tier}"))
